@@ -1,19 +1,20 @@
 #!/usr/bin/env python3
 """Development helper: confirm each candidate mutation in its scratch worktree:
 demo passes on the clean tree, fails with the patch, and the pinned baseline tests still pass with the patch.
-usage: verify_seeded.py <prop> ...   writes /tmp/mut/out/<prop>/verify.json"""
+usage: MUT_ROOT=/tmp/mut2 verify_seeded.py <prop> ...   writes $MUT_ROOT/out/<prop>/verify.json"""
 import json, os, subprocess, sys, xml.etree.ElementTree as ET
+ROOT = os.environ.get("MUT_ROOT", "/tmp/mut")
 base = set(json.load(open("/root/.vp/BASELINE.json"))["stable_pass"])
 head = subprocess.run(["git", "-C", "/repo", "rev-parse", "HEAD"], capture_output=True, text=True).stdout.strip()
 SO = "/repo/wavespectra/partition/specpart.cpython-312-x86_64-linux-gnu.so"
 def sh(cmd, cwd, **k): return subprocess.run(cmd, cwd=cwd, capture_output=True, text=True, **k)
 for prop in sys.argv[1:]:
-    wt = f"/tmp/mut/{prop}"
+    wt = f"{ROOT}/{prop}"
     out = {}
     sh(["git", "checkout", "-q", "--", "."], wt); sh(["git", "checkout", "-q", "--detach", head], wt)
     sh(["cp", SO, f"{wt}/wavespectra/partition/"], wt)
     for k in (1, 2, 3):
-        d = f"/tmp/mut/out/{prop}/mut{k}"
+        d = f"{ROOT}/out/{prop}/mut{k}"
         if not os.path.exists(f"{d}/patch.diff"): continue
         r = {}
         clean = sh(["/venv/bin/python", "-W", "ignore", f"{d}/demo.py"], wt, timeout=900)
@@ -31,7 +32,7 @@ for prop in sys.argv[1:]:
             r["demo_mut_rc"] = mut.returncode
         except subprocess.TimeoutExpired:
             r["demo_mut_rc"] = "timeout"
-        xml = f"/tmp/mut/out/{prop}/verify_mut{k}.xml"
+        xml = f"{ROOT}/out/{prop}/verify_mut{k}.xml"
         env = dict(os.environ); env.pop("PYTHONPATH", None)
         sh(["/venv/bin/python", "-m", "pytest", "-q", "-p", "no:cacheprovider", "--timeout=900", "--continue-on-collection-errors", "-n", "3", f"--junitxml={xml}"], wt, env=env)
         passed = set()
@@ -50,4 +51,4 @@ for prop in sys.argv[1:]:
         r["ok"] = r["demo_clean_rc"] == 0 and r.get("demo_mut_rc") not in (0, None) and not r["baseline_missing"] and len(passed) >= len(base)
         out[f"mut{k}"] = r
         print(prop, f"mut{k}", r, flush=True)
-    json.dump(out, open(f"/tmp/mut/out/{prop}/verify.json", "w"), indent=1)
+    json.dump(out, open(f"{ROOT}/out/{prop}/verify.json", "w"), indent=1)
